@@ -146,13 +146,6 @@ def describe_sites(e):
     return out
 
 
-def finding_key(entry_name, d):
-    """stable key of a static finding: entry point + kind + the caller object concerned"""
-    if d["reason"].startswith("hyper-parameter"):
-        return "%s:SetParam %s" % (entry_name, d["reason"].split()[1])
-    return "%s:Write %s" % (entry_name, ",".join(d["roots"]) or "?")
-
-
 # ------------------------------------------------------------------ run
 def run(ctx):
     po = C.proof_obligations(ctx.prop)
@@ -173,20 +166,25 @@ def run(ctx):
         static_unsafe_names.add(e["name"])
         descs = describe_sites(e)
         obs = dyn["mutations"].get(e["name"], [])
-        keys = sorted({finding_key(e["name"], d) for d in descs})
-        for key in keys:
-            kind, _, what = key.split(":", 1)[1].partition(" ")
+        groups = {}
+        for d in descs:
+            if d["reason"].startswith("hyper-parameter"):
+                groups.setdefault(("SetParam", d["reason"].split()[1]), []).append(d)
+            else:
+                groups.setdefault(("Write", ",".join(d["roots"]) or "?"), []).append(d)
+        for (kind, what), ds in sorted(groups.items()):
             hit = [o for o in obs if D.matches(o, kind, what)]
-            ds = [d for d in descs if finding_key(e["name"], d) == key]
             if hit:
                 n_confirmed += 1
                 o = hit[0]
+                key = "%s:%s %s" % (e["name"], kind, o["name"])
                 C.report_violation(
-                    ctx, "C09 fails: %s %s (%s) -- static: %s:%d `%s`; observed: %s" % (
+                    ctx, "C09 fails: %s %s %s -- static: %s:%d `%s`; observed: %s" % (
                         e["name"], "re-assigns hyper-parameter" if kind == "SetParam" else "overwrites the caller's",
-                        what, ds[0]["file"], ds[0]["line"], ds[0]["text"], o["what"]),
+                        o["name"], ds[0]["file"], ds[0]["line"], ds[0]["text"], o["what"]),
                     dict(case=o["case"], static_sites=ds, observed=o["what"]), key=key, found_input=True)
             else:
+                key = "%s:%s %s" % (e["name"], kind, what)
                 C.report_violation(
                     ctx, "C09 static alarm not confirmed by any dynamic run: %s at %s:%d `%s` [%s]" % (
                         key, ds[0]["file"], ds[0]["line"], ds[0]["text"], ds[0]["reason"]),
@@ -203,7 +201,11 @@ def run(ctx):
                     else "has no such entry point"),
                 dict(case=o["case"], observed=o["what"]), found_input=True)
     # ---- (b) refits, (c) determinism / fit returns self / fit_transform
+    seen_keys = set()
     for v in dyn["violations"]:
+        if v.get("key") in seen_keys:
+            continue
+        seen_keys.add(v.get("key"))
         C.report_violation(ctx, v["what"], dict(case=v["case"], detail=v.get("detail")), key=v.get("key"),
                            found_input=True)
     for txt in broken:
